@@ -134,7 +134,14 @@ pub fn run_case(tape: &mut Tape, _tier: Tier, _p: &CaseParams) -> CaseOutcome {
           _ => None,
         })
         .collect();
-      (exports, deps, urls, failed_manifests, resolves)
+      // (url, checksum presented) of every request for a registry file
+      let presented: Vec<(String, Option<String>)> = report
+        .loads
+        .iter()
+        .filter(|l| l.id.url.starts_with(REGISTRY) && !l.id.url.ends_with("meta.json"))
+        .map(|l| (l.id.url.clone(), l.checksum.clone()))
+        .collect();
+      (exports, deps, urls, failed_manifests, resolves, presented)
     },
   );
   let (built, t1) = match res {
@@ -150,7 +157,8 @@ pub fn run_case(tape: &mut Tape, _tier: Tier, _p: &CaseParams) -> CaseOutcome {
     out.count("abnormal_end", 1);
     return out;
   }
-  let (pkg_exports, pkg_deps, urls, failed_manifests, resolves) = built.extra;
+  let (pkg_exports, pkg_deps, urls, failed_manifests, resolves, presented) =
+    built.extra;
   let ctx = |extra: Value| {
     json!({"what": extra, "sem": sem, "sched": sched, "hash_seed": hash_seed, "world": world.to_json()})
   };
@@ -318,6 +326,47 @@ pub fn run_case(tape: &mut Tape, _tier: Tier, _p: &CaseParams) -> CaseOutcome {
         }
         out.count("probe.unknown_export_error", 1);
       }
+    }
+  }
+  // attribution: a registry file is checked against the manifest of the
+  // package version its URL names (path segments), never against another
+  // version's whose URL happens to be a string prefix
+  for (url, sum) in &presented {
+    let Some(sum) = sum else { continue };
+    let Some(rest) = url.strip_prefix(REGISTRY) else { continue };
+    let mut it = rest.splitn(4, '/');
+    let (Some(scope), Some(pname), Some(version), Some(path)) =
+      (it.next(), it.next(), it.next(), it.next())
+    else {
+      continue;
+    };
+    let manifest_url =
+      format!("{}{}/{}/{}_meta.json", REGISTRY, scope, pname, version);
+    let Some(Entry::Module { bytes, .. }) = world.remote.get(&manifest_url) else {
+      continue;
+    };
+    let Ok(mv) = serde_json::from_slice::<Value>(bytes) else { continue };
+    let expected = match mv["manifest"][format!("/{}", path)]["checksum"].as_str() {
+      Some(c) => c.strip_prefix("sha256-").unwrap_or(c).to_string(),
+      None => "package-manifest-missing-checksum".to_string(),
+    };
+    out.count("probe.registry_file_checksum_attributed", 1);
+    if *sum != expected
+      && mv["manifest"][format!("/{}", path)]["checksum"]
+        .as_str()
+        .is_none_or(|c| c.starts_with("sha256-"))
+    {
+      out.violation(
+        "C07",
+        "url-attributed-to-its-own-package",
+        "registry-file-checked-against-another-version",
+        format!(
+          "{} belongs to {}/{}@{} whose manifest gives {} for /{}; the build presented {}",
+          url, scope, pname, version, expected, path, sum
+        ),
+        ctx(json!({"url": url})),
+      );
+      return out;
     }
   }
   // package_exports(nv) == exports used
